@@ -1,6 +1,8 @@
 package checks
 
 import (
+	"crypto/sha1"
+	"encoding/hex"
 	"fmt"
 	"sort"
 	"strings"
@@ -97,30 +99,50 @@ func ShapeKey(t *space.Ty) string {
 }
 
 type pairSpace struct {
-	u     *space.Universe
-	types []*space.Ty
-	depth int
-	full  bool
-	k     int
+	u      *space.Universe
+	pairs  [][2]*space.Ty
+	groups []map[string]any
+	k      int
+}
+
+// addGroup adds all ordered pairs over Types(leaves, depth), skipping pairs already present.
+func (ps *pairSpace) addGroup(name string, leaves []*space.Ty, depth int, seen map[string]bool) {
+	types := space.Types(leaves, depth)
+	n := 0
+	for _, s := range types {
+		for _, t := range types {
+			k := s.Key() + "→" + t.Key()
+			if seen[k] {
+				continue
+			}
+			seen[k] = true
+			ps.pairs = append(ps.pairs, [2]*space.Ty{s, t})
+			n++
+		}
+	}
+	ps.groups = append(ps.groups, map[string]any{"group": name, "leaves": len(leaves), "depth": depth, "types": len(types), "new_pairs": n})
 }
 
 func newPairSpace(tier string) *pairSpace {
 	ps := &pairSpace{u: space.StdUniverse()}
+	seen := map[string]bool{}
+	u := ps.u
+	tiny := []*space.Ty{space.B("int"), space.N(u.Get("in", "P")), space.N(u.Get("out", "P"))}
 	switch tier {
 	case "thorough":
-		ps.depth, ps.full, ps.k = 2, false, 2
-	case "thorough1":
-		ps.depth, ps.full, ps.k = 1, true, 2
+		ps.k = 2
+		ps.addGroup("full-alphabet-depth1", u.Leaves(true), 1, seen)
+		ps.addGroup("reduced-alphabet-depth2", u.Leaves(false), 2, seen)
 	default:
-		ps.depth, ps.full, ps.k = 1, true, 1
+		ps.k = 1
+		ps.addGroup("full-alphabet-depth1", u.Leaves(true), 1, seen)
+		ps.addGroup("tiny-alphabet-depth2", tiny, 2, seen)
 	}
-	ps.types = space.Types(ps.u.Leaves(ps.full), ps.depth)
 	return ps
 }
 
 func (ps *pairSpace) describe() map[string]any {
-	return map[string]any{"type_depth": ps.depth, "full_leaf_alphabet": ps.full, "types": len(ps.types),
-		"pairs": len(ps.types) * len(ps.types), "setting_deviations": ps.k, "setting_vectors": len(vectors(ps.k))}
+	return map[string]any{"pair_groups": ps.groups, "pairs": len(ps.pairs), "setting_deviations": ps.k, "setting_vectors": len(vectors(ps.k))}
 }
 
 // pairIface renders the converter interface of pair index idx.
@@ -133,7 +155,6 @@ const convHeader = "package conv\n\nimport (\n\t\"unsafe\"\n\n\t\"vx/in\"\n\t\"v
 // PairWorker explores the pairs idx ≡ shard (mod n): model verdict vs. real in-process outcome.
 func PairWorker(w *pool.W, shard, n int, tier string) error {
 	ps := newPairSpace(tier)
-	nt := len(ps.types)
 	mod, err := emit.NewModule("pairs")
 	if err != nil {
 		return err
@@ -143,9 +164,9 @@ func PairWorker(w *pool.W, shard, n int, tier string) error {
 	var b strings.Builder
 	b.WriteString(convHeader)
 	var mine []int
-	for idx := shard; idx < nt*nt; idx += n {
+	for idx := shard; idx < len(ps.pairs); idx += n {
 		mine = append(mine, idx)
-		fmt.Fprint(&b, pairIface(fmt.Sprintf("C%07d", idx), ps.types[idx/nt], ps.types[idx%nt]))
+		fmt.Fprint(&b, pairIface(fmt.Sprintf("C%07d", idx), ps.pairs[idx][0], ps.pairs[idx][1]))
 	}
 	mod.Add("conv/conv.go", b.String())
 	if err := mod.Write(); err != nil {
@@ -157,7 +178,7 @@ func PairWorker(w *pool.W, shard, n int, tier string) error {
 	}
 	vecs := vectors(ps.k)
 	for _, idx := range mine {
-		s, t := ps.types[idx/nt], ps.types[idx%nt]
+		s, t := ps.pairs[idx][0], ps.pairs[idx][1]
 		name := fmt.Sprintf("C%07d", idx)
 		rc, ok := sess.Raws[name]
 		if !ok {
@@ -184,12 +205,13 @@ func PairWorker(w *pool.W, shard, n int, tier string) error {
 					w.Count("distinct_nontrivial_pairs")
 				}
 			}
-			cs := map[string]any{"kind": "pair", "source": s.Go("conv"), "target": t.Go("conv"), "converter_lines": lines, "tier": tier, "index": idx}
+			cs := map[string]any{"iface": name, "kind": "pair", "source": s.Go("conv"), "target": t.Go("conv"), "converter_lines": lines, "tier": tier, "index": idx}
 			site := "model:" + strings.Join(uniq(res.Codes), "+")
 			if res.Verdict == model.OK {
 				site = "impl:" + diagClass(out.Diag)
 			}
 			_ = ShapeKey
+			w.Rep(pool.Rep{Class: res.Verdict.String() + "/" + out.Kind.String() + "/" + site, Case: cs, Kind: out.Kind.String(), Hash: filesHash(out.Files)})
 			switch out.Kind {
 			case drive.Panic:
 				w.Viol(ev.Violation{Property: "C13", Site: panicSite(out.Diag), Symptom: "panic", Detail: fmt.Sprintf("%s → %s with %v\n%s", s, t, lines, out.Diag), Case: cs})
@@ -226,6 +248,20 @@ func PairWorker(w *pool.W, shard, n int, tier string) error {
 	}
 	w.CountN("states_types", 0)
 	return nil
+}
+
+// filesHash hashes generated file contents (sorted by name; names excluded because scratch roots differ).
+func filesHash(files map[string][]byte) string {
+	var names []string
+	for n := range files {
+		names = append(names, n)
+	}
+	sort.Strings(names)
+	h := sha1.New()
+	for _, n := range names {
+		h.Write(files[n])
+	}
+	return hex.EncodeToString(h.Sum(nil)[:8])
 }
 
 func firstLine(s string) string {
